@@ -25,6 +25,7 @@ def main():
     s = sub.add_parser("selftest")
     s.add_argument("what", nargs="?", default="smoke")
     s.add_argument("--n", type=int, default=200)
+    s.add_argument("--props", default=None)
     a = ap.parse_args()
     try:
         import nmea2000  # noqa: F401
@@ -42,7 +43,7 @@ def main():
         return runner.replay(a.path)
     if a.cmd == "selftest":
         from sim import selftest
-        return selftest.main(a.what, a.n, seed)
+        return selftest.main(a.what, a.n, seed, a.props)
     return 2
 
 
